@@ -35,7 +35,9 @@ CLAIMED = {
             "the model of convert() regenerated from hera/op.py, executed by the code model of C01, yields exactly "
             "the documented whole-effect (Spec/PseudoSpec.v) on every well-formed state, every register operand, "
             "every immediate / label value < 65536 and every flag setting; equality of whole states, except that "
-            "SET/SETRF to R15 are compared up to hera-py's stack-overflow warning bookkeeping.",
+            "SET/SETRF to R15 are compared up to hera-py's stack-overflow warning bookkeeping; the whole effect of CALL(Ra, "
+            "label) is stated for Ra other than R13/FP (the overlapping exchanges are an open point of the ISA), and that "
+            "the call arrives at the label is proved for every Ra.",
             "trusted: as C01 plus Spec/PseudoSpec.v, Model/Bitvec.v (OPCODE)"),
     "C04": ("PARTIAL proof (whole-program code layout now a theorem). Proved in Coq over the hand model of checker.py "
             "(Model/Preproc.v) and the regenerated operation_length / convert / P tables: a program whose type-check reports "
